@@ -58,6 +58,10 @@ SPEC = {
 
 def preload(prop):
     launch.quiet()
+    if prop == "C03":
+        launch.preload_cli()  # the pipeline rounds launch prepare_retrospective_simulation / train_model
+        import batchie.cli.prepare_retrospective_simulation  # noqa
+        import batchie.cli.train_model  # noqa
     import batchie.retrospective  # noqa
     import batchie.cli.reveal_plate  # noqa
     import batchie.cli.extract_screen_metadata  # noqa
@@ -83,6 +87,10 @@ def gen_plan(prop, run_seed, tier):
         plan["theta_seed"] = w.randrange(2**31)
         n_steps = s.randint(2, 14 if tier == "quick" else 40)
         ops = ["reveal"] * 5 + ["mask", "unmask"] + ["save_load"] * 3 + ["reveal_cli"] * 2
+        if s.random() < (0.06 if tier == "quick" else 0.12):
+            # whole retrospective rounds through the real CLI processes
+            plan["pipeline"] = dict(rounds=s.randint(2, 4), seed=s.randrange(100000), fraction=s.choice(["0.2", "0.5", "0.34"]),
+                                    wseed=w.randrange(2**31), generator=s.choice([None, "PlatePermutationPlateGenerator"]))
     elif prop == "C12":
         spec = gen.gen_screen(w, observed_rate=w.choice([0.0, 0.3, 0.6]))
         plan["screen"] = spec
@@ -275,7 +283,113 @@ def _run(ctx):
         ctx.stats.steps += 1
         ctx.ops_done.append(st["op"])
         _check_all(ctx, f"after:{st['op']}")
+    if plan.get("pipeline") and prop == "C03":
+        _c03_pipeline(ctx)
     _final_keys(ctx)
+
+
+def _c03_pipeline(ctx):
+    """pipesim rounds for C03: prepare -> (train -> reveal) x rounds through the real CLI processes;
+    the thetas trained at round 1 are applied to the screens of every later round and to the test
+    screen; every stage's ids must agree with the ids of the first stage."""
+    import random as _random
+
+    from batchie.core import ThetaHolder
+    from batchie.data import Screen
+    from simkit import pipe
+
+    pl = ctx.plan["pipeline"]
+    w = _random.Random(pl["wseed"])
+    spec = pipe.gen_pipeline_screen(w, n_plates=w.randint(4, 7), rows_per_plate=w.randint(2, 4), n_samples=w.randint(2, 3),
+                                    n_names=w.randint(3, 4), allow_controls=False)
+    for r in spec["rows"]:
+        r[4] = True
+    # conditions that occur in a single row only: likely to end up in the hold-out alone
+    for k, (smp, name) in enumerate([("!s_first", "d0"), ("s0", "!d_first"), ("m_mid", "c_mid")][: w.randint(1, 3)]):
+        spec["rows"].append([smp, [[name, 1.0], ["d1", 2.0]], w.uniform(0.2, 0.8), w.choice([r[3] for r in spec["rows"]]), True])
+    src = ctx.scratch.file("input.h5")
+    gen.make_screen(spec).save_h5(src)
+    train_p, test_p = ctx.scratch.file("training.screen.h5"), ctx.scratch.file("test.screen.h5")
+    args = ["--holdout-fraction", pl["fraction"]]
+    if pl["generator"]:
+        args += ["--plate-generator", pl["generator"]]
+    try:
+        pipe.p_prepare(src, train_p, test_p, args=args, seed=pl["seed"], entropy=pipe.h64("c03", pl["seed"]))
+        cur = Screen.load_h5(train_p)
+        test = Screen.load_h5(test_p)
+    except pipe.HarnessError:
+        raise
+    except Exception as e:
+        ctx.log.ev("pipeline-prepare-raised", type(e).__name__)
+        return
+    ctx.stats.steps += 1
+    sd0, td0, _, _ = ref.mapping_dicts(cur)
+    sizes0 = _expect_sizes(cur)
+    theta = None
+    stages = [("training", cur), ("test", test)]
+    cur_p = train_p
+    for rnd_i in range(pl["rounds"]):
+        if theta is None:
+            out = ctx.scratch.file("thetas_0.h5")
+            try:
+                pipe.p_train(cur_p, out, model="SparseDrugCombo", model_params={"n_embedding_dimensions": 2}, n_chains=1,
+                             chain_index=0, n_samples=1, n_burnin=1, thin=1, seed=pl["seed"], entropy=pipe.h64("c03t", pl["seed"]))
+                theta = ThetaHolder.load_h5(out).thetas[0]
+            except pipe.HarnessError:
+                raise
+            except Exception as e:
+                ctx.log.ev("pipeline-train-raised", type(e).__name__)
+                return
+            ctx.stats.steps += 1
+        unobs = [int(p.plate_id) for p in cur.plates if not p.is_observed]
+        if not unobs:
+            break
+        pick = unobs[(pl["seed"] + rnd_i) % len(unobs)]
+        nxt = ctx.scratch.file("advanced_screen.h5")
+        try:
+            pipe.p_reveal(cur_p, nxt, [pick], entropy=pipe.h64("c03r", rnd_i))
+            cur = Screen.load_h5(nxt)
+        except pipe.HarnessError:
+            raise
+        except Exception as e:
+            ctx.log.ev("pipeline-reveal-raised", type(e).__name__)
+            return
+        cur_p = nxt
+        ctx.stats.steps += 1
+        stages.append((f"round{rnd_i + 1}", cur))
+    ctx.stats.probe("pipeline_rounds", len(stages) - 2)
+    for name, scr in stages:
+        ctx.stats.oracle_evals += 1
+        sd, td, _, _ = ref.mapping_dicts(scr)
+        bad_s = {k: (v, sd0[k]) for k, v in sd.items() if k in sd0 and sd0[k] != v}
+        bad_t = {k: (v, td0[k]) for k, v in td.items() if k in td0 and td0[k] != v}
+        ctx.log.ev("pipeline-stage", name, digest(ref.row_ids(scr)))
+        if bad_s or bad_t:
+            ctx.violation("C03.mapping-renumbered", f"pipeline:{name.rstrip('0123456789')}",
+                          f"stage {name} of a retrospective run assigns other ids than the training screen of round 0: "
+                          f"samples {dict(list(bad_s.items())[:2])} treatments {dict(list(bad_t.items())[:2])}")
+            return
+        nt, ns = _expect_sizes(scr)
+        if nt < sizes0[0] or ns < sizes0[1]:
+            ctx.violation("C03.embedding-size-shrank", f"pipeline:{name.rstrip('0123456789')}",
+                          f"stage {name}: sizes ({nt},{ns}) below the first stage's {sizes0}")
+            return
+        if theta is not None and scr.size:
+            rows = ref.content_rows(scr)
+            try:
+                want = theta.predict_conditional_mean(ref.IdView([sd0[r[0]] for r in rows], [[td0[t] for t in r[1]] for r in rows]))
+                got = theta.predict_conditional_mean(scr)
+            except (IndexError, KeyError) as e:
+                ctx.violation("C03.prediction-changed", f"pipeline:{name.rstrip('0123456789')}",
+                              f"stage {name}: thetas trained at round 1 cannot be applied: {e!r}")
+                return
+            if f64_bits(got).tolist() != f64_bits(want).tolist():
+                ctx.violation("C03.prediction-changed", f"pipeline:{name.rstrip('0123456789')}",
+                              f"stage {name}: thetas trained at round 1 predict differently than on the first stage's ids")
+                return
+    miss = [k for k in sd0 if k not in {r[0] for r in ref.content_rows(stages[0][1])}]
+    if miss:
+        ctx.stats.probe("pipeline_holdout_only_sample")
 
 
 def _spec_rows(spec):
